@@ -193,9 +193,12 @@ def check(tier):
     rep.obligation("nfa.Parse / regex ast.Parse / pattern-to-DFA on %d pattern strings: a result or an error, no panic (recorded findings apart)" % len(pats), not new_pbad)
     # nested counted repetitions over large classes take minutes in the implementation (a cost that grows with the pattern, not a
     # loop): a time-out counts as a hang only for a short pattern, longer ones are recorded as undecided
-    phang = [p_ for p_ in pslow if len(p_) <= 16]
+    # (the size that matters is the expanded one: counted repetitions multiply the pattern)
+    import re as _re
+    weight = lambda p_: len(p_) + sum(int(x) for x in _re.findall(r"\d+", " ".join(_re.findall(r"\{[^}]*\}", p_))))
+    phang = [p_ for p_ in pslow if weight(p_) <= 16]
     rep.cov["patterns_undecided_slow"] = len(pslow) - len(phang)
-    rep.obligation("every short pattern call returned within 90 s", not phang)
+    rep.obligation("every short pattern call (length plus repetition counts at most 16) returned within 90 s", not phang)
     for p_ in phang[:2]:
         rep.failure("pattern-hang", {"pattern-hang"}, {"pattern": p_})
 
@@ -231,7 +234,7 @@ def check(tier):
                   [os.path.join(afile, "sub.grammar")], [os.path.join(scratch, "b" * 300)], ["-name", "n" * 300, good]]
         flagpool = ["-out", "-name", "-debug", "-verbose", "-help", "-version", "-x", "--", "-", "=", "-out=", "-name=_", "-debug=0", "-verbose=2", "x y", "é", ""]
         for _ in range(40 if tier == "quick" else 600):
-            argvs.append([rng.choice(flagpool + list(files)[:3]) for _ in range(rng.randint(0, 5))])
+            argvs.append([rng.choice(flagpool + list(files)[:3] + [good, good]) for _ in range(rng.randint(0, 5))])
         for av in argvs:
             out = os.path.join(scratch, "out%d" % cli_runs)
             os.mkdir(out)
